@@ -64,6 +64,22 @@ type pipeEnd struct {
 	peer   *pipeEnd
 	name   string
 	rdl    time.Time
+	// gated double: when armed, the next Write blocks (gateHit is closed) until gateRelease is closed
+	gateArmed   bool
+	gateHit     chan struct{}
+	gateRelease chan struct{}
+}
+
+// armGate makes the next Write on this end stop before it delivers anything, until release() is called.
+func (p *pipeEnd) armGate() (hit <-chan struct{}, release func()) {
+	p.mu.Lock()
+	defer p.mu.Unlock()
+	p.gateArmed = true
+	p.gateHit = make(chan struct{})
+	p.gateRelease = make(chan struct{})
+	rel := p.gateRelease
+	var once sync.Once
+	return p.gateHit, func() { once.Do(func() { close(rel) }) }
 }
 
 func newPipe(name string) (srv, cli *pipeEnd) {
@@ -104,7 +120,16 @@ func (p *pipeEnd) Read(b []byte) (int, error) {
 func (p *pipeEnd) Write(b []byte) (int, error) {
 	p.mu.Lock()
 	cl := p.closed
+	var rel chan struct{}
+	if p.gateArmed {
+		p.gateArmed = false
+		rel = p.gateRelease
+		close(p.gateHit)
+	}
 	p.mu.Unlock()
+	if rel != nil {
+		<-rel
+	}
 	if cl {
 		return 0, net.ErrClosed
 	}
@@ -323,7 +348,7 @@ func parseCase(s string) (c *caseT, err error) {
 	if i < len(t) {
 		expect("late")
 		c.late = next()
-		if c.late != "bridge" && c.late != "route" && c.late != "remote" {
+		if c.late != "bridge" && c.late != "route" && c.late != "remote" && c.late != "window" {
 			panic("bad late " + c.late)
 		}
 		c.lateMid = next()
@@ -715,6 +740,14 @@ func runCaseInner(c *caseT) string {
 	case "empty":
 		payload = nil
 	}
+	var gateHit <-chan struct{}
+	releaseGate := func() {}
+	if c.late == "window" {
+		// the requester's acknowledgement is written after the dispatcher's own bridge/route look-ups and before
+		// handleTargetBridge / startSourceBridge look again: holding that write opens exactly this window
+		gateHit, releaseGate = r.srv.armGate()
+	}
+	defer releaseGate()
 	done := make(chan error, 1)
 	go func() {
 		defer func() {
@@ -737,7 +770,31 @@ func runCaseInner(c *caseT) string {
 		}
 		return "err"
 	}
-	if c.late != "" {
+	if c.late == "window" {
+		select {
+		case <-gateHit:
+			lm, listed := final[c.lateMid]
+			if !listed {
+				return "setup-failed:late-mapping"
+			}
+			s, err := w.connect("S")
+			if err != nil {
+				return "setup-failed:connect"
+			}
+			w.handshake(s, lm.listen, true)
+			w.open(s, openPayload(lm.id, "", ""))
+			if mid, sID, _, ok := w.sm.VerifBridgeEnds(tunnelID); !ok || mid != lm.id || sID == "" {
+				return "setup-failed:window-bridge"
+			}
+			s.cli.drain()
+			src = s
+			releaseGate()
+		case e := <-done:
+			ret, finished = classify(e), true // returned without writing anything
+		case <-time.After(5 * time.Second):
+			return "setup-failed:window-not-reached"
+		}
+	} else if c.late != "" {
 		// The request found nothing at arrival.  Every path of handleTunnelOpen writes its acknowledgement only
 		// after the arrival-time bridge and route lookups, so once the ack is on the wire (or the call returned) the
 		// arrival phase is over: the request is refused, owns a new bridge, or polls.  Only then does the tunnel appear.
@@ -935,7 +992,7 @@ func lateMatrix() []*caseT {
 		{"F", "", ""}, {"F", "s3cretF", ""}}
 	for _, id := range ids {
 		for _, cr := range creds {
-			for _, kind := range []string{"bridge", "route", "remote"} {
+			for _, kind := range []string{"bridge", "route", "remote", "window"} {
 				for _, mid := range []string{"M", "F"} {
 					out = append(out, &caseT{pl: "ok", hs: id.hs, cid: id.cid, rmid: cr[0], rsec: cr[1], rtok: cr[2],
 						maps: []mappingT{mapM, mapF}, ts: "none", late: kind, lateMid: mid})
@@ -1045,14 +1102,15 @@ func randomCases(r *vc.Rand, n int) []*caseT {
 			c.ts, c.tsMid, c.served = "none", "", false
 		} else if c.ts == "none" && r.Intn(2) == 0 {
 			// the tunnel appears while the request polls
-			c.late = []string{"bridge", "bridge", "route", "remote"}[r.Intn(4)]
+			c.late = []string{"bridge", "window", "route", "remote", "window"}[r.Intn(5)]
 			c.lateMid = vc.Pick(r, ids)
-			if c.late == "bridge" {
+			if c.late == "bridge" || c.late == "window" {
+				kind := c.late
 				// a bridge can only be opened by the rightful listen client of a usable, listed mapping
 				c.late = ""
 				for _, x := range c.maps {
 					if x.active && !x.revoked && x.expired != 1 && (x.id == c.lateMid || c.late == "") {
-						c.late, c.lateMid = "bridge", x.id
+						c.late, c.lateMid = kind, x.id
 					}
 				}
 			}
